@@ -176,6 +176,7 @@ func checkC01(r *core.Run) {
 	r.Count("hdl_instruction_slices", nHdl)
 	r.Count("simulate_instruction_slices", nSim)
 	r.Count("operand_kind_uses", nKind)
+	decodeWidth(r, prog, "C01")
 	c01OpNumbering(r, prog)
 	c01HwOptBookkeeping(r, prog)
 }
@@ -186,6 +187,47 @@ func c01OpNumbering(r *core.Run, prog *core.Program) {
 	pk := prog.Pkg("pkg/procbuilder")
 	info := pk.TypesInfo
 	n := 0
+	// helpers that render a number at a width: zeros_prefix(<param a>, get_binary(<param b>)) in the body
+	numWrappers := map[types.Object][2]int{}
+	core.FuncDecls(pk, func(_ *ast.File, fd *ast.FuncDecl) {
+		pidx := map[types.Object]int{}
+		i := 0
+		for _, f := range fd.Type.Params.List {
+			for _, nm := range f.Names {
+				pidx[info.ObjectOf(nm)] = i
+				i++
+			}
+		}
+		ast.Inspect(fd.Body, func(m ast.Node) bool {
+			call, ok := m.(*ast.CallExpr)
+			if !ok || len(call.Args) != 2 {
+				return true
+			}
+			if c := core.CalleeOf(info, call); c == nil || c.Name() != "zeros_prefix" {
+				return true
+			}
+			wid, ok1 := ast.Unparen(call.Args[0]).(*ast.Ident)
+			gb, ok2 := ast.Unparen(call.Args[1]).(*ast.CallExpr)
+			if !ok1 || !ok2 || len(gb.Args) != 1 {
+				return true
+			}
+			if c2 := core.CalleeOf(info, gb); c2 == nil || c2.Name() != "get_binary" {
+				return true
+			}
+			vid, ok3 := ast.Unparen(gb.Args[0]).(*ast.Ident)
+			if !ok3 {
+				return true
+			}
+			a, okA := pidx[info.ObjectOf(wid)]
+			b, okB := pidx[info.ObjectOf(vid)]
+			if okA && okB {
+				if o := info.Defs[fd.Name]; o != nil {
+					numWrappers[o] = [2]int{a, b}
+				}
+			}
+			return true
+		})
+	})
 	core.FuncDecls(pk, func(_ *ast.File, fd *ast.FuncDecl) {
 		lc := &layoutCtx{pk: pk, info: info, mode: "ha"}
 		// range loops over a Conproc.Op value: key objects
@@ -220,21 +262,33 @@ func c01OpNumbering(r *core.Run, prog *core.Program) {
 					return true
 				}
 				c := core.CalleeOf(info, call)
-				if c == nil || c.Name() != "zeros_prefix" || len(call.Args) != 2 {
+				if c == nil {
 					return true
 				}
-				if lc.eval(call.Args[0], en).String() != "opbits" {
+				var widthE, valueE ast.Expr
+				if c.Name() == "zeros_prefix" && len(call.Args) == 2 {
+					widthE = call.Args[0]
+					if gb, isCall := ast.Unparen(call.Args[1]).(*ast.CallExpr); isCall {
+						if c2 := core.CalleeOf(info, gb); c2 != nil && c2.Name() == "get_binary" && len(gb.Args) == 1 {
+							valueE = gb.Args[0]
+						}
+					}
+				} else if w, ok := numWrappers[c]; ok && w[0] < len(call.Args) && w[1] < len(call.Args) {
+					// a helper that renders zeros_prefix(<bits param>, get_binary(<value param>))
+					widthE, valueE = call.Args[w[0]], call.Args[w[1]]
+				} else {
+					return true
+				}
+				if lc.eval(widthE, en).String() != "opbits" {
 					return true
 				}
 				k++
 				n++
 				inst := fmt.Sprintf("C01/OPNUM:%s:site%d", core.FuncKey(pk, fd), k)
 				ok2 := false
-				if gb, isCall := ast.Unparen(call.Args[1]).(*ast.CallExpr); isCall {
-					if c2 := core.CalleeOf(info, gb); c2 != nil && c2.Name() == "get_binary" && len(gb.Args) == 1 {
-						if id, isID := ast.Unparen(gb.Args[0]).(*ast.Ident); isID && opKeys[info.ObjectOf(id)] {
-							ok2 = true
-						}
+				if valueE != nil {
+					if id, isID := ast.Unparen(valueE).(*ast.Ident); isID && opKeys[info.ObjectOf(id)] {
+						ok2 = true
 					}
 				}
 				if ok2 {
